@@ -9,6 +9,7 @@ import (
 	"fmt"
 
 	"github.com/remieven/ysgo"
+	"github.com/remieven/ysgo/variable"
 )
 
 func c12World(tp *Tape, env *Env) (*Plan, *Violation) {
@@ -70,6 +71,10 @@ func c12World(tp *Tape, env *Env) (*Plan, *Violation) {
 		if tp.Chance(10, "postregister") {
 			post = append(post, Op{K: "register"})
 		}
+		if tp.Chance(10, "postbadrestore") {
+			// a restore the runner may refuse (an unknown node; a snapshot with a hollow value in it)
+			post = append(post, Op{K: "restore_refusable", Arg: tp.Int(0, 1, "badrestorekind")})
+		}
 		post = append(post, Op{K: "next", Arg: junkArgs[tp.Int(0, len(junkArgs)-1, "junk")]})
 	}
 	plan := &Plan{Harness: 1, Property: "C12", Program: prog, Layout: &layout, World: w, Ops: ops,
@@ -124,6 +129,20 @@ func c12Exec(plan *Plan, st *Stats) *Violation {
 			nonzero := false
 			for i := range post {
 				op := &post[i]
+				if op.K == "restore_refusable" {
+					bad := &ysgo.Snapshot{CurrentNode: "No such node"}
+					if op.Arg == 1 && plan.Program != nil && len(plan.Program.Nodes) > 0 {
+						bad = &ysgo.Snapshot{CurrentNode: plan.Program.Nodes[0].Title, Variables: map[string]variable.Value{"hollow": {}}}
+					}
+					err, pv := safeRestore(d, bad)
+					if pv != nil || err == nil {
+						return nil // accepted (the dialogue legitimately starts over) or C07's business
+					}
+					if st != nil {
+						st.probe("restore_refused_after_the_end")
+					}
+					continue // refused: nothing may have changed, the dialogue is still over
+				}
 				if op.K != "next" {
 					d.apply(op)
 					continue
